@@ -61,6 +61,19 @@ template <class Mat> void check_rows(Case &c, const std::string &nm, const Mat &
     }
     c.check(ok, nm + ":row-iteration", "row iteration over the adapter does not reproduce the source row (columns, values, order, length)", J().n("row", badrow));
 }
+// Two row iterators of the same adapted matrix alive at once and advanced alternately (what block_matrix, cpr and every merging
+// consumer do): each must keep showing ITS row of the source.  Pairs (i, i+1) and (i, i); all rows up to 64, a stride sample beyond.
+template <class Mat> void check_two_iterators(Case &c, const std::string &nm, const Mat &M, const Csr<double> &A) {
+    if (!A.n || backend::rows(M) != A.n) return; bool ok = true; size_t bad = 0, step = std::max<size_t>(1, A.n / 64);
+    for (size_t i = 0; ok && i < A.n; i += step) for (int same = 0; ok && same < 2; ++same) { size_t i2 = same ? i : (i + 1) % A.n;
+        auto a = backend::row_begin(M, i); auto b2 = backend::row_begin(M, i2); ptrdiff_t ja = A.ptr[i], jb = A.ptr[i2];
+        while (ok && (a || b2)) {
+            if (a)  { if (ja >= A.ptr[i + 1]  || (ptrdiff_t)a.col()  != A.col[ja] || !((double)a.value()  == A.val[ja])) ok = false; ++a;  ++ja; }
+            if (ok && b2) { if (jb >= A.ptr[i2 + 1] || (ptrdiff_t)b2.col() != A.col[jb] || !((double)b2.value() == A.val[jb])) ok = false; ++b2; ++jb; } }
+        if (ok && (ja != A.ptr[i + 1] || jb != A.ptr[i2 + 1])) ok = false; if (!ok) bad = i; }
+    c.check(ok, nm + ":two-iterators", "two row iterators of the same adapted matrix alive at once do not both reproduce their source rows", J().n("row", bad));
+    vf::obs_sum("two_iterator_probes");
+}
 // conversion into the internal CRS (what every amgcl constructor does with a user matrix)
 template <class Mat> void check_convert(Case &c, const std::string &nm0, const Mat &M, const Csr<double> &A) {
     // zero_copy<...> all return crs<double>: the conversion is then the crs copy constructor, one key for all index-type variants
@@ -85,7 +98,7 @@ template <class Mat> void check_spmv(Case &c, const std::string &nm, const Mat &
 }
 template <bool SPMV = true, class Mat> void check_all(Case &c, const std::string &nm, const Mat &M, const Src &S, Rng &r, bool nnz_exact = true) {
     try {
-        check_rows(c, nm, M, S.A, nnz_exact); check_convert(c, nm, M, S.A);
+        check_rows(c, nm, M, S.A, nnz_exact); check_two_iterators(c, nm, M, S.A); check_convert(c, nm, M, S.A);
         static const double cs[5] = {0, 1, -1, 2, 0.5};
         // (Eigen matrices have no spmv with builtin vectors: the library converts them to CRS first, which check_convert covers)
         if constexpr (SPMV) { check_spmv(c, nm, M, S, 1.0, 0.0); check_spmv(c, nm, M, S, cs[r.range(1, 4)], cs[r.range(1, 4)]); }
@@ -176,6 +189,11 @@ template <int b> void block_variant(Case &c, const Src &S, Rng &r) {
             for (auto a = backend::row_begin(BA, ib); a; ++a, ++it, ++cnt) { if (it == ref[ib].end() || a.col() != it->first) { ok = false; break; } Blk v = a.value(); for (int k = 0; k < b * b; ++k) if (!(v(k) == it->second[k])) ok = false; }
             if (ok && it != ref[ib].end()) ok = false; }
         c.check(ok && cnt == nblocks, tag + ":row-iteration", "block adapter rows differ from the zero-filled block structure of the scalar matrix");
+        { bool tok2 = true; for (size_t ib = 0; tok2 && ib < nb; ++ib) { size_t i2 = (ib + 1) % nb; auto a = backend::row_begin(BA, ib); auto a2 = backend::row_begin(BA, i2); auto it = ref[ib].begin(), it2 = ref[i2].begin();
+              auto eq = [&](auto &x, auto &itx, const std::map<ptrdiff_t, std::array<double, b * b>> &mp) { if (itx == mp.end() || x.col() != itx->first) return false; Blk v = x.value(); for (int k = 0; k < b * b; ++k) if (!(v(k) == itx->second[k])) return false; return true; };
+              while (tok2 && (a || a2)) { if (a) { tok2 = eq(a, it, ref[ib]); ++a; if (tok2) ++it; } if (tok2 && a2) { tok2 = eq(a2, it2, ref[i2]); ++a2; if (tok2) ++it2; } }
+              if (tok2 && (it != ref[ib].end() || it2 != ref[i2].end())) tok2 = false; }
+          c.check(tok2, tag + ":two-iterators", "two block-row iterators alive at once do not both reproduce their block rows"); vf::obs_sum("two_iterator_probes"); }
         backend::crs<Blk> CB(BA); c.check(CB.nrows == nb && CB.nnz == nblocks, tag + ":crs-conversion", "crs<block>(block adapter) has wrong size", J().n("nnz", CB.nnz).n("expected", nblocks));
         // unblock(block(A)) == A with incomplete blocks zero-filled
         auto U = adapter::unblock_matrix(CB); bool uok = U->nrows == n && U->ncols == n && U->nnz == nblocks * b * b; std::vector<double> dense_row(n);
@@ -194,6 +212,26 @@ template <int b> void block_variant(Case &c, const Src &S, Rng &r) {
     };
     try { auto BA1 = adapter::block_matrix<Blk>(T); check(nm + "(tuple)", BA1); auto BA2 = adapter::block_matrix<Blk>(M); check(nm + "(crs)", BA2); }
     catch (const std::exception &e) { c.fail(nm + ":exception", e.what()); }
+    // COMPOSITIONS: the block adapter (which keeps b row iterators of the wrapped matrix alive at once) over every other scalar adapter
+    auto over = [&](const std::string &inner, const auto &Inner) { try { auto BA = adapter::block_matrix<Blk>(Inner); check(nm + "(" + inner + ")", BA); vf::obs_sum("adapter_compositions"); } catch (const std::exception &e) { c.fail(nm + "(" + inner + "):exception", e.what()); } };
+    { RowBuilder rb{&A}; auto Bm = adapter::make_matrix(rb); over("crs_builder", Bm); }
+    { std::vector<double> val = A.val;
+      { std::vector<int> p(A.ptr.begin(), A.ptr.end()), cl(A.col.begin(), A.col.end()); auto Tt = std::tie(n, p, cl, val); over("tuple<int;int>", Tt);
+        auto Z = adapter::zero_copy_direct(n, n, p.data(), cl.data(), val.data()); over("zero_copy_direct<int;int>", *Z);
+        Eigen::Map<Eigen::SparseMatrix<double, Eigen::RowMajor, int>> EM(n, n, A.nnz(), p.data(), cl.data(), val.data()); over("eigen_map<int>", EM); }
+      { std::vector<long> p(A.ptr.begin(), A.ptr.end()), cl(A.col.begin(), A.col.end()); auto Tt = std::tie(n, p, cl, val); over("tuple<long;long>", Tt); }
+      { std::vector<unsigned> p(A.ptr.begin(), A.ptr.end()), cl(A.col.begin(), A.col.end()); auto Tt = std::tie(n, p, cl, val); over("tuple<unsigned;unsigned>", Tt); }
+      { std::vector<size_t> p(A.ptr.begin(), A.ptr.end()), cl(A.col.begin(), A.col.end()); auto Tt = std::tie(n, p, cl, val); over("tuple<size_t;size_t>", Tt);
+        auto Tr = std::make_tuple(n, make_iterator_range(p.data(), p.data() + p.size()), make_iterator_range(cl.data(), cl.data() + cl.size()), make_iterator_range(val.data(), val.data() + val.size())); over("tuple_ranges<size_t;size_t>", Tr);
+        auto Z = adapter::zero_copy(n, p.data(), cl.data(), val.data()); over("zero_copy<size_t>", *Z); }
+      { std::vector<ptrdiff_t> p = A.ptr, cl = A.col; auto Tt = std::tie(n, p, cl, val); over("tuple<ptrdiff_t;ptrdiff_t>", Tt); auto Z = adapter::zero_copy(n, p.data(), cl.data(), val.data()); over("zero_copy<ptrdiff_t>", *Z); }
+      { auto P = std::make_shared<backend::crs<double>>(M); over("shared_ptr<crs>", *P); }
+      { Eigen::SparseMatrix<double, Eigen::RowMajor, int> E(n, n); std::vector<Eigen::Triplet<double>> tr; for (size_t i = 0; i < n; ++i) for (ptrdiff_t j = A.ptr[i]; j < A.ptr[i + 1]; ++j) tr.emplace_back((int)i, (int)A.col[j], A.val[j]);
+        E.setFromTriplets(tr.begin(), tr.end()); E.makeCompressed(); over("eigen_sparse", E);
+        Eigen::SparseMatrix<double, Eigen::RowMajor, int> U(n, n); U.reserve(Eigen::VectorXi::Constant(n, (int)n + 2)); for (size_t i = 0; i < n; ++i) for (ptrdiff_t j = A.ptr[i]; j < A.ptr[i + 1]; ++j) U.insert((int)i, (int)A.col[j]) = A.val[j];
+        over("eigen_sparse_uncompressed", U); }
+      { boost::numeric::ublas::compressed_matrix<double> Um(n, n, A.nnz()); for (size_t i = 0; i < n; ++i) for (ptrdiff_t j = A.ptr[i]; j < A.ptr[i + 1]; ++j) Um.push_back(i, A.col[j], A.val[j]); Um.complete_index1_data(); auto Tu = backend::map(Um); over("ublas_compressed", Tu); }
+    }
 }
 static void sub_block() {
     long N = vf::tier(240, 4000);
@@ -326,6 +364,43 @@ template <class Ord> void reorder_case(Case &c, const std::string &nm, const Csr
         } catch (const std::exception &e) { c.fail(nm + ":solve:exception", e.what()); }
     }
 }
+// COMPOSITION: reorder<> over another adapter (permutation, P A P^T view incl. the two-iterator probe, conversion, SpMV)
+template <class Mat> void reorder_over(Case &c, const std::string &nm, const Mat &Min, const Csr<double> &A, Rng &r, bool exact) {
+    size_t n = A.n;
+    try {
+        adapter::reorder<> perm(Min); std::vector<double> iota(n), pv(n); for (size_t i = 0; i < n; ++i) iota[i] = (double)i; perm.forward(iota, pv);
+        std::vector<ptrdiff_t> p(n), ip(n, -1); bool isperm = true; for (size_t i = 0; i < n; ++i) { p[i] = (ptrdiff_t)pv[i]; if (p[i] < 0 || (size_t)p[i] >= n || ip[p[i]] >= 0) { isperm = false; break; } ip[p[i]] = (ptrdiff_t)i; }
+        if (!c.check(isperm, nm + ":not-a-permutation", "reorder<> over this adapter produced an ordering that is not a permutation")) return;
+        auto PA = perm(Min); Csr<double> Bm(n, n); for (size_t i = 0; i < n; ++i) { for (ptrdiff_t j = A.ptr[p[i]]; j < A.ptr[p[i] + 1]; ++j) Bm.push(ip[A.col[j]], A.val[j]); Bm.end_row(); }
+        Src S; S.A = Bm; S.exact = exact; S.x = exact ? vf::random_int_vector(n, r) : vf::random_vector(n, r); S.y0 = exact ? vf::random_int_vector(n, r) : vf::random_vector(n, r);
+        check_all(c, nm + ":matrix-view", PA, S, r); vf::obs_sum("adapter_compositions");
+    } catch (const std::exception &e) { c.fail(nm + ":exception", e.what()); }
+}
+// COMPOSITION: scale_diagonal over another adapter: entries s_i a_ij s_j (6 eps relative, see sub_scale), two iterators alive at once
+template <class Mat> void scale_over(Case &c, const std::string &nm, const Mat &Min, const Csr<double> &A) {
+    size_t n = A.n;
+    try {
+        auto sc = adapter::scale_diagonal<B>(Min); auto SM = sc.matrix(Min);
+        std::vector<LD> s(n, 0); for (size_t i = 0; i < n; ++i) for (ptrdiff_t j = A.ptr[i]; j < A.ptr[i + 1]; ++j) if (A.col[j] == (ptrdiff_t)i) s[i] = 1 / sqrtl(fabsl((LD)A.val[j]));
+        bool ok = backend::rows(SM) == n;
+        for (size_t i = 0; ok && i < n; ++i) { size_t i2 = (i + 1) % n; auto a = backend::row_begin(SM, i); auto a2 = backend::row_begin(SM, i2); ptrdiff_t j = A.ptr[i], j2 = A.ptr[i2];
+            auto eq = [&](auto &it, size_t row, ptrdiff_t jj) { if (jj >= A.ptr[row + 1] || (ptrdiff_t)it.col() != A.col[jj]) return false; LD ref = s[row] * A.val[jj] * s[A.col[jj]]; return (bool)(fabsl((LD)it.value() - ref) <= 6 * 2.22e-16L * fabsl(ref)); };
+            while (ok && (a || a2)) { if (a) { ok = eq(a, i, j); ++a; ++j; } if (ok && a2) { ok = eq(a2, i2, j2); ++a2; ++j2; } }
+            if (ok && (j != A.ptr[i + 1] || j2 != A.ptr[i2 + 1])) ok = false; }
+        c.check(ok, nm + ":matrix", "scaled matrix over this adapter differs from a_ij / sqrt(|a_ii| |a_jj|) (two row iterators alive at once)"); vf::obs_sum("adapter_compositions"); vf::obs_sum("two_iterator_probes");
+    } catch (const std::exception &e) { c.fail(nm + ":exception", e.what()); }
+}
+// the adapters a composition is built over (sorted, square source)
+template <bool with_crs_like, class F> void over_adapters(const Csr<double> &A, F fn) {
+    size_t n = A.n; std::vector<double> val = A.val;
+    if constexpr (with_crs_like) { RowBuilder rb{&A}; auto Bm = adapter::make_matrix(rb); fn("crs_builder", Bm); }
+    if constexpr (with_crs_like) { std::vector<ptrdiff_t> p = A.ptr, cl = A.col; auto Z = adapter::zero_copy(n, p.data(), cl.data(), val.data()); fn("zero_copy", *Z); }
+    { std::vector<int> p(A.ptr.begin(), A.ptr.end()), cl(A.col.begin(), A.col.end()); Eigen::Map<Eigen::SparseMatrix<double, Eigen::RowMajor, int>> EM(n, n, A.nnz(), p.data(), cl.data(), val.data()); fn("eigen_map", EM); }
+    if (is_sorted(A)) { Eigen::SparseMatrix<double, Eigen::RowMajor, int> E(n, n); std::vector<Eigen::Triplet<double>> tr; for (size_t i = 0; i < n; ++i) for (ptrdiff_t j = A.ptr[i]; j < A.ptr[i + 1]; ++j) tr.emplace_back((int)i, (int)A.col[j], A.val[j]);
+        E.setFromTriplets(tr.begin(), tr.end()); E.makeCompressed(); fn("eigen_sparse", E);
+        Eigen::SparseMatrix<double, Eigen::RowMajor, int> U(n, n); U.reserve(Eigen::VectorXi::Constant(n, (int)n + 2)); for (size_t i = 0; i < n; ++i) for (ptrdiff_t j = A.ptr[i]; j < A.ptr[i + 1]; ++j) U.insert((int)i, (int)A.col[j]) = A.val[j];
+        fn("eigen_sparse_uncompressed", U); }
+}
 static void sub_reorder() {
     long N = vf::tier(150, 2400);
     for (long idx = 0; idx < N; ++idx) {
@@ -335,7 +410,8 @@ static void sub_reorder() {
         else { fam = "random-symmetric-pattern"; size_t n = r.range(1, 60); A = vf::random_dd(n, r.uni(0.05, 0.5), r, true); if (exact) for (auto &v : A.val) v = (double)(long)(v * 8); }
         Case c("reorder", idx, J().s("family", fam).n("n", A.n).n("nnz", A.nnz()).bl("solve", solve).bl("exact", exact));
         try { reorder_case<reorder::cuthill_mckee<false>>(c, "reorder<cuthill_mckee>", A, r, solve, exact);
-              reorder_case<reorder::cuthill_mckee<true>>(c, "reorder<reverse_cuthill_mckee>", A, r, solve && idx % 2 == 0, exact); }
+              reorder_case<reorder::cuthill_mckee<true>>(c, "reorder<reverse_cuthill_mckee>", A, r, solve && idx % 2 == 0, exact);
+              if (!solve) over_adapters<true>(A, [&](const std::string &inner, const auto &Min) { reorder_over(c, "reorder(" + inner + ")", Min, A, r, exact); }); }
         catch (const std::exception &e) { c.fail("reorder:exception", e.what()); }
         c.nontrivial(); vf::sample("reorder", J().s("family", fam).n("n", A.n).n("nnz", A.nnz()).bl("solve", solve));
     }
@@ -366,6 +442,9 @@ static void sub_scale() {
             std::vector<double> f = vf::random_vector(n, r); auto fs = sc.rhs(f); bool rok = fs->size() == n; for (size_t i = 0; rok && i < n; ++i) rok = fabsl((LD)(*fs)[i] - s[i] * f[i]) <= 4 * 2.22e-16L * fabsl(s[i] * f[i]);
             c.check(rok, "scale_diagonal:rhs", "scaled rhs differs from f_i / sqrt(|a_ii|)");
             { std::vector<double> g = f; sc(g); bool gok = true; for (size_t i = 0; i < n; ++i) gok = gok && g[i] == (*fs)[i]; c.check(gok, "scale_diagonal:in-place", "in-place scaling differs from rhs()"); }
+            // (scaled_matrix::row_iterator constructs its base as Base(A, i): only tuple and Eigen iterators offer that constructor,
+            //  scale_diagonal over crs_builder / crs (zero_copy) does not compile and is therefore not a run-time case)
+            if (!solve) over_adapters<false>(A, [&](const std::string &inner, const auto &Min) { scale_over(c, "scale_diagonal(" + inner + ")", Min, A); });
             if (solve) {
                 SolverF::params prm; prm.precond.coarse_enough = 40; prm.solver.maxiter = 200; SolverF slv(SM, prm);
                 std::vector<double> x(n, 0.0); auto res = slv(*fs, x); sc(x);           // x = D^1/2 y
